@@ -33,7 +33,7 @@ Holds(r) ==
     [] r.fn = "min_where" -> r.res = "ok" /\ r.out = <<MinWhere(r.s, r.b)>>
     [] r.fn \in {"density", "incidence_density", "degree_histogram", "degree_counts", "is_possible_order",
                  "edge_neighborhood"} ->
-         LET S == FromJ(r.st) IN
+         (LET S == FromJ(r.st) IN
          IF ~Integrity(S) THEN TRUE
          ELSE CASE r.fn = "density" -> SameVal(Val(r), DensityP(S, r.k, r.n, r.b[1]))
                 [] r.fn = "incidence_density" -> SameVal(Val(r), IncDensityP(S, r.k, r.n, r.b[1]))
@@ -42,7 +42,16 @@ Holds(r) ==
                 [] r.fn = "is_possible_order" -> r.res = "ok" /\ r.out = <<IsPossibleOrder(S, r.k)>>
                 [] r.fn = "edge_neighborhood" ->
                      r.res = "ok" /\ {<<r.out[k][1], Range(r.out[k][2])>> : k \in DOMAIN r.out} = EdgeNeighborhood(S, r.n, r.b[1])
-                                  /\ Len(r.out) = Cardinality(S.n2e[r.n])
+                                  /\ Len(r.out) = Cardinality(S.n2e[r.n]))
+    [] r.fn = "view_algebra" ->
+         LET S == FromJ(r.st)
+             all == IF r.k = 0 THEN S.nodes ELSE S.edges
+             A == Range(r.s)  B == Range(r.ids)
+         IN IF ~Integrity(S) THEN TRUE
+            ELSE IF ~(A \cup B \subseteq Range(all)) THEN r.res = "liberr"
+            ELSE r.res = "ok" /\ <<r.out[1], r.out[2], r.out[3], r.out[4]>> = ViewAlgebra(all, A, B)
+                 /\ r.out[5] = ViewIds(all, A) /\ r.out[6] = <<A \cap B = {}>>
+                 /\ r.out[7] = <<Cardinality(A)>>
     [] OTHER -> FALSE
 
 Verdict(r) == IF r.anom # <<>> THEN <<"X01:anomaly." \o r.anom[1]>>
